@@ -661,18 +661,20 @@ theorem C09_arith_refused (name : String) (S O : Spec) (hne : S.folded ≠ O.fol
     (name ∈ binaryMethods → binop name S (.spectrum O) = .raise "ValueError")
     ∧ (name ∈ inplaceMethods → inplace name S (.spectrum O) = .raise "ValueError"
                                ∧ inplaceSelfAfter name S (.spectrum O) = some S) := by
-  have hr : foldingRefused (Operand.spectrum O).isSpectrum S.folded (Operand.spectrum O).folded = true := by
-    simp only [foldingRefused, Operand.isSpectrum, Operand.folded, Bool.true_and]
+  -- proved by running the two translated statement lists (not through `C09_binary_program` / `C09_inplace_program`)
+  have hr : foldingRefused true S.folded O.folded = true := by
+    simp only [foldingRefused, Bool.true_and]
     cases hs : S.folded <;> cases ho : O.folded <;> simp_all
+  have hw : foldingRefusedWhat = "ValueError" := rfl
   constructor <;> intro hn
-  · rw [C09_binary_program]
-    unfold binopClosed guards
-    simp [hn, hr, foldingRefusedWhat]
-  · obtain ⟨h1, h2, _⟩ := C09_inplace_program name S (.spectrum O)
-    have hcl : inplaceClosed name S (.spectrum O) = .raise "ValueError" := by
-      unfold inplaceClosed guards
-      simp [hn, hr, foldingRefusedWhat]
-    exact ⟨h1.trans hcl, h2 _ hcl⟩
+  · have hc : binaryMethods.contains name = true := by simpa using hn
+    unfold binop
+    run_template [hc, hr, hw, binaryProgram]
+  · have hc : inplaceMethods.contains name = true := by simpa using hn
+    have hs : inplaceShapeOk = true := rfl
+    unfold inplace inplaceSelfAfter
+    run_template [hc, hs, hr, hw, inplaceProgram]
+    first | done | simp
 
 example : ∃ S O : Spec, S.folded ≠ O.folded := ⟨⟨[2], #[1, 2], #[false, false], false, none⟩, ⟨[2], #[1, 2], #[false, false], true, none⟩, by decide⟩
 
